@@ -1,7 +1,7 @@
 (* C03, pinned commit: the byte-level witness (kept apart from Properties/C03.v because it is evaluated at the SHA-256
    instance, which uses Coq's primitive 63-bit integers; Print Assumptions lists those primitives, no axiom). *)
 From Coq Require Import NArith.
-From QV Require Import History.HistBytes.
+From QV Require Import Base.HashSig Base.ShaInst History.HistModel History.HistChecked Run.HistRun History.HistBytes.
 
 (* (4) at byte level was FALSE of the pinned verifier, which hashed entries as given: the premise H_inj fails on two
    different inputs with one byte string (no SHA-256 collision involved).  Concrete witness evaluated in the kernel at
@@ -10,4 +10,13 @@ From QV Require Import History.HistBytes.
    defect, repaired by fix 10a81c4 (DESIGN 7.1). *)
 Theorem C03_unchecked_entry_lengths_refuted : shift_scenario = true.
 Proof. exact unchecked_lengths_accept_altered. Qed.
+
+(* the repaired verifier at the SHA-256 instance: for every audit path and every pruned tree, every digest it returns and
+   every child of every node it hashes has 32 bytes *)
+Theorem C03_sha_verifier_hashes_32_byte_children (c : cache bytes) (o : op bytes) r tr :
+  interp_tr bytes bytes bytes Hsha (checked len32 c) o = Some (r, tr) ->
+  len32 r = true /\ List.Forall (fun x => wf_children bytes bytes bytes len32 x = true) tr.
+Proof. exact (checked_sha_inputs_wf c o r tr). Qed.
+
 Print Assumptions C03_unchecked_entry_lengths_refuted.
+Print Assumptions C03_sha_verifier_hashes_32_byte_children.
